@@ -381,6 +381,12 @@ def run(repo: Repo, rep: Report, tier: str) -> None:
     n += rule_fading_noise(repo, rep)
     n += rule_utils(repo, rep)
     n += rule_memo(repo, rep)
+    # the noise of successive uses is independent: no fork / re-seed / state restore around the draws
+    from ..speciallint import lint_rng_discipline
+
+    mi_ = repo.module(AN)
+    for f_ in list(mi_.functions.values()) + [m_ for c_ in mi_.classes.values() if c_.name in ("AWGNChannel", "LaplacianChannel", "PhaseNoiseChannel", "PoissonChannel", "NonlinearChannel") for m_ in c_.methods.values() if m_.name != "__init__"]:
+        n += lint_rng_discipline(rep, f_, "VAR-LAW")
     rep.floor("C07 law instances", n, 34)
     rep.decided_clauses += [
         "variance law: real Var = P; complex Var(re)+Var(im) = P; signal factor 1; noise added once",
